@@ -252,4 +252,1136 @@ Section P.
           replace (fixed && (S i =? 0)%nat) with false by (cbn; rewrite andb_false_r; reflexivity).
           rewrite app_assoc. reflexivity.
   Qed.
+
+  Lemma send_loop_some fixed fa : forall (cs : list (list A)) i cur ck cur' ck',
+    send_loop fixed fa i cs cur ck = (cur', Some ck') -> cs <> [] -> exists c, cur' = Some c.
+  Proof.
+    induction cs as [|c cs IH]; intros i cur ck cur' ck' Hs Hne; [congruence|].
+    cbn [Model_C14.send_loop] in Hs. destruct (fails_at fa i); [discriminate|].
+    destruct (recv_chunk fixed cur i c) as [f' ck1].
+    destruct cs as [|c2 cs].
+    - cbn in Hs. inversion Hs; subst. eexists; reflexivity.
+    - eapply IH; [exact Hs|discriminate].
+  Qed.
+
+  Lemma send_loop_complete fixed fa : forall (cs : list (list A)) i cur ck cur' ck',
+    send_loop fixed fa i cs cur ck = (cur', Some ck') ->
+    forall j, (i <= j < i + length cs)%nat -> fails_at fa j = false.
+  Proof.
+    induction cs as [|c cs IH]; intros i cur ck cur' ck' Hs j Hj; [cbn in Hj; lia|].
+    cbn [Model_C14.send_loop] in Hs. destruct (fails_at fa i) eqn:F; [discriminate|].
+    destruct (recv_chunk fixed cur i c) as [f' ck1].
+    destruct (Nat.eq_dec j i) as [->|Hne]; [exact F|].
+    eapply IH; [exact Hs|cbn [length] in Hj; lia].
+  Qed.
+
+  Lemma rpc_chunks_split (f : list A) :
+    exists ds, rpc_chunks f = ds ++ [[]] /\ (f <> [] -> (0 < length ds)%nat) /\ concat ds = f.
+  Proof.
+    exists (data_chunks (length f) f). split; [reflexivity|]. split.
+    - intros Hf. destruct f as [|a f]; [congruence|]. cbn. lia.
+    - apply data_chunks_concat. lia.
+  Qed.
+
+  (* ---------------- one file transfer ---------------- *)
+  Lemma send_file_cases fixed fa src dst p (st : state A) :
+    (file st src p = None /\ send_file fixed fa src dst p st = (st, false)) \/
+    (exists f, file st src p = Some f /\
+       (send_file fixed fa src dst p st = (st, false) \/
+        (exists c, send_file fixed fa src dst p st = (set_file st dst p c, false)) \/
+        (exists c, send_file fixed fa src dst p st = (del_file (set_file st dst p c) src p, true) /\
+                   (f <> [] -> hash c = hash f) /\ (fixed = true -> c = f)))).
+  Proof.
+    unfold Model_C14.send_file.
+    destruct (file st src p) as [f|] eqn:Ef; [right; exists f; split; [reflexivity|]|left; auto].
+    destruct (send_loop fixed fa 0 (rpc_chunks f) (file st dst p) h0) as [cur res] eqn:L.
+    destruct res as [ck|].
+    - destruct (send_loop_some _ _ _ _ _ _ _ _ L) as [c Hc].
+      { unfold Model_C14.rpc_chunks. destruct (data_chunks (length f) f); discriminate. }
+      subst cur.
+      destruct (fails_at fa (length (rpc_chunks f))); [right; left; eauto|].
+      destruct (H_dec ck (hash f)) as [E|E]; [|right; left; eauto].
+      right; right. exists c. split; [reflexivity|]. split.
+      + intros Hf. destruct (rpc_chunks_split f) as (ds & Hds & Hlen & _).
+        rewrite Hds in L. apply send_loop_ck in L; [|specialize (Hlen Hf); lia].
+        destruct L as (c' & Hc' & Hck). inversion Hc'; subst. congruence.
+      + intros ->. pose proof (send_loop_complete _ _ _ _ _ _ _ _ L) as Hall.
+        destruct (send_loop_ok true fa (rpc_chunks f) 0 (file st dst p) h0) as [ck2 L2].
+        { unfold Model_C14.rpc_chunks. destruct (data_chunks (length f) f); discriminate. }
+        { exact Hall. }
+        rewrite L in L2. inversion L2 as [[Hc2 Hk2]].
+        destruct (rpc_chunks_split f) as (ds & Hds & _ & Hcat).
+        rewrite Hds, concat_app, Hcat. cbn. rewrite app_nil_r.
+        unfold eff_base. destruct (file st dst p); reflexivity.
+    - destruct cur as [c|]; [right; left; eauto|left; reflexivity].
+  Qed.
+
+  Lemma send_file_ff fixed fa src dst p (st : state A) f :
+    file st src p = Some f -> f <> [] -> (forall j, fails_at fa j = false) ->
+    (fixed = true \/ file st dst p = None) ->
+    send_file fixed fa src dst p st = (del_file (set_file st dst p f) src p, true).
+  Proof.
+    intros Ef Hf Hfa Hready. unfold Model_C14.send_file. rewrite Ef.
+    destruct (rpc_chunks_split f) as (ds & Hds & Hlen & Hcat).
+    destruct (send_loop_ok fixed fa (rpc_chunks f) 0 (file st dst p) h0) as [ck L].
+    { rewrite Hds. destruct ds; discriminate. }
+    { intros; apply Hfa. }
+    rewrite L.
+    assert (Hbase : eff_base fixed 0 (file st dst p) = []).
+    { unfold eff_base. destruct Hready as [-> | ->]; [destruct (file st dst p); reflexivity|reflexivity]. }
+    rewrite Hbase in *. cbn [app] in *.
+    assert (Hc : concat (rpc_chunks f) = f).
+    { rewrite Hds, concat_app, Hcat. cbn. apply app_nil_r. }
+    rewrite Hc in *. rewrite Hfa.
+    pose proof L as L2. rewrite Hds in L2. apply send_loop_ck in L2; [|specialize (Hlen Hf); lia].
+    destruct L2 as (c' & Hc' & Hck). inversion Hc'; subst c'.
+    destruct (H_dec ck (hash f)); [reflexivity|congruence].
+  Qed.
+
+  (* ---------------- what one transfer may do ---------------- *)
+  Definition file_step (src : node) (p : path) (st st' : state A) : Prop :=
+    src <> owner_f p /\
+    (forall n q, ~ (n = owner_f p /\ q = p) -> ~ (n = src /\ q = p) -> file st' n q = file st n q) /\
+    (forall n k, rec_ st' n k = rec_ st n k) /\
+    (file st src p = None -> file st' (owner_f p) p = file st (owner_f p) p) /\
+    (file st' src p = file st src p \/
+     exists f, file st src p = Some f /\ file st' src p = None /\ file st' (owner_f p) p = Some f).
+
+  Definition rec_step (src d : node) (st st' : state A) : Prop :=
+    src <> d /\
+    (forall n p, file st' n p = file st n p) /\
+    (forall k, (forall n, rec_ st' n k = rec_ st n k) \/
+               (owner_r k = d /\ exists v, rec_ st src k = Some v /\ rec_ st' d k = Some v /\
+                  (rec_ st' src k = Some v \/ rec_ st' src k = None) /\
+                  forall n, n <> src -> n <> d -> rec_ st' n k = rec_ st n k)).
+
+  Ltac fsimp :=
+    repeat (rewrite ?file_set_file, ?file_del_file, ?rec_set_file, ?rec_del_file,
+                    ?file_put_rec, ?file_del_rec, ?rec_put_rec, ?rec_del_rec in * );
+    repeat match goal with
+           | |- context [node_dec ?a ?b] => destruct (node_dec a b); subst
+           | |- context [path_dec ?a ?b] => destruct (path_dec a b); subst
+           | |- context [key_dec ?a ?b] => destruct (key_dec a b); subst
+           end; try congruence; try tauto.
+
+  Lemma file_step_refl src p (st : state A) : src <> owner_f p -> file_step src p st st.
+  Proof. intros Hs. repeat split; auto. Qed.
+
+  Lemma file_step_set src p (st : state A) c f :
+    src <> owner_f p -> file st src p = Some f -> file_step src p st (set_file st (owner_f p) p c).
+  Proof.
+    intros Hs Hf. split; [exact Hs|]. split; [|split; [|split]].
+    - intros n q H1 H2. fsimp.
+    - intros n k. fsimp.
+    - congruence.
+    - left. fsimp.
+  Qed.
+
+  Lemma file_step_move src p (st : state A) f :
+    src <> owner_f p -> file st src p = Some f ->
+    file_step src p st (del_file (set_file st (owner_f p) p f) src p).
+  Proof.
+    intros Hs Hf. split; [exact Hs|]. split; [|split; [|split]].
+    - intros n q H1 H2. fsimp.
+    - intros n k. fsimp.
+    - congruence.
+    - right. exists f. split; [exact Hf|]. split; fsimp.
+  Qed.
+
+  (* any transfer, with any fault, of a non-empty file whose checksum collides with no other content *)
+  Lemma send_file_step fixed fa src p (st : state A) :
+    src <> owner_f p ->
+    (forall f, file st src p = Some f -> f <> [] /\ (fixed = true \/ forall g, hash g = hash f -> g = f)) ->
+    file_step src p st (fst (send_file fixed fa src (owner_f p) p st)).
+  Proof.
+    intros Hs Hsrc.
+    destruct (send_file_cases fixed fa src (owner_f p) p st) as [[Hn E]|(f & Hf & [E|[(c & E)|(c & E & Hc & Hfx)]])];
+      rewrite E; cbn [fst].
+    - apply file_step_refl; exact Hs.
+    - apply file_step_refl; exact Hs.
+    - eapply file_step_set; eauto.
+    - destruct (Hsrc f Hf) as [Hne [Hfixed|Hinj]].
+      + rewrite (Hfx Hfixed). apply file_step_move; auto.
+      + rewrite (Hinj c (Hc Hne)). apply file_step_move; auto.
+  Qed.
+
+  (* ---------------- record groups ---------------- *)
+  Lemma rec_put_all (st : state A) d grp n k :
+    rec_ (put_all st d grp) n k =
+    if node_dec n d then match al_get key_dec k grp with Some v => Some v | None => rec_ st n k end
+    else rec_ st n k.
+  Proof.
+    induction grp as [|[k1 v1] grp IH]; cbn [put_all fold_right al_get fst snd].
+    - destruct (node_dec n d); reflexivity.
+    - fold (put_all st d grp). rewrite rec_put_rec, IH.
+      destruct (node_dec n d); [|reflexivity]. destruct (key_dec k k1); reflexivity.
+  Qed.
+  Lemma file_put_all (st : state A) d grp n p : file (put_all st d grp) n p = file st n p.
+  Proof.
+    induction grp as [|[k1 v1] grp IH]; cbn [put_all fold_right]; [reflexivity|].
+    fold (put_all st d grp). rewrite file_put_rec. exact IH.
+  Qed.
+  Lemma rec_del_all (st : state A) s ks n k :
+    rec_ (del_all st s ks) n k =
+    if node_dec n s then (if in_dec key_dec k ks then None else rec_ st n k) else rec_ st n k.
+  Proof.
+    induction ks as [|k1 ks IH]; cbn [del_all fold_right].
+    - destruct (node_dec n s); reflexivity.
+    - fold (del_all st s ks). rewrite rec_del_rec, IH.
+      destruct (node_dec n s); [|reflexivity].
+      destruct (key_dec k k1) as [E|E].
+      + subst. destruct (in_dec key_dec k1 (k1 :: ks)) as [|N]; [reflexivity|]. exfalso; apply N; left; reflexivity.
+      + destruct (in_dec key_dec k ks) as [I|I]; destruct (in_dec key_dec k (k1 :: ks)) as [I'|I']; try reflexivity.
+        * exfalso; apply I'; right; exact I.
+        * destruct I' as [E'|I']; [congruence|contradiction].
+  Qed.
+  Lemma file_del_all (st : state A) s ks n p : file (del_all st s ks) n p = file st n p.
+  Proof.
+    induction ks as [|k1 ks IH]; cbn [del_all fold_right]; [reflexivity|].
+    fold (del_all st s ks). rewrite file_del_rec. exact IH.
+  Qed.
+
+  Lemma get_group (st : state A) s d k :
+    al_get key_dec k (group_of owner_r d (recs (st s))) =
+    if node_dec (owner_r k) d then rec_ st s k else None.
+  Proof.
+    unfold group_of, rec_.
+    rewrite (al_get_filter_key key_dec (fun k => if node_dec (owner_r k) d then true else false)).
+    destruct (node_dec (owner_r k) d); reflexivity.
+  Qed.
+
+  Lemma in_group_keys (st : state A) s d k :
+    In k (map fst (group_of owner_r d (recs (st s)))) <-> owner_r k = d /\ rec_ st s k <> None.
+  Proof.
+    rewrite <- (al_get_in_map_fst key_dec). rewrite get_group.
+    destruct (node_dec (owner_r k) d); tauto.
+  Qed.
+
+  Lemma send_group_step rf src d (st : state A) :
+    src <> d -> rec_step src d st (fst (send_group rf src d st)).
+  Proof.
+    intros Hs. split; [exact Hs|]. unfold Model_C14.send_group.
+    destruct rf; cbn [fst].
+    - (* RNone *)
+      split; [intros n p; rewrite file_del_all, file_put_all; reflexivity|].
+      intros k. destruct (node_dec (owner_r k) d) as [Ek|Ek].
+      + destruct (rec_ st src k) as [v|] eqn:Ev.
+        * right. split; [exact Ek|]. exists v. split; [reflexivity|].
+          assert (Hin : In k (map fst (group_of owner_r d (recs (st src))))).
+          { apply in_group_keys. split; [exact Ek|congruence]. }
+          split; [|split].
+          -- rewrite rec_del_all, rec_put_all, get_group.
+             destruct (node_dec d src); [congruence|].
+             destruct (node_dec d d); [|congruence]. destruct (node_dec (owner_r k) d); [|congruence].
+             rewrite Ev. reflexivity.
+          -- right. rewrite rec_del_all. destruct (node_dec src src); [|congruence].
+             destruct (in_dec key_dec k _); [reflexivity|contradiction].
+          -- intros n Hn1 Hn2. rewrite rec_del_all, rec_put_all.
+             destruct (node_dec n src); [congruence|]. destruct (node_dec n d); [congruence|reflexivity].
+        * left. intros n. rewrite rec_del_all, rec_put_all, get_group, Ev.
+          destruct (node_dec (owner_r k) d); [|congruence].
+          assert (Hnin : ~ In k (map fst (group_of owner_r d (recs (st src))))).
+          { rewrite in_group_keys. intros [_ Hx]. congruence. }
+          destruct (node_dec n src).
+          -- destruct (in_dec key_dec k _); [contradiction|]. destruct (node_dec n d); reflexivity.
+          -- destruct (node_dec n d); reflexivity.
+      + left. intros n. rewrite rec_del_all, rec_put_all, get_group.
+        destruct (node_dec (owner_r k) d); [congruence|].
+        assert (Hnin : ~ In k (map fst (group_of owner_r d (recs (st src))))).
+        { rewrite in_group_keys. intros [Hx _]. congruence. }
+        destruct (node_dec n src).
+        * destruct (in_dec key_dec k _); [contradiction|]. destruct (node_dec n d); reflexivity.
+        * destruct (node_dec n d); reflexivity.
+    - (* RFailSend *)
+      split; [reflexivity|]. intros k. left. reflexivity.
+    - (* RFailDelete *)
+      split; [intros n p; rewrite file_put_all; reflexivity|].
+      intros k. destruct (node_dec (owner_r k) d) as [Ek|Ek].
+      + destruct (rec_ st src k) as [v|] eqn:Ev.
+        * right. split; [exact Ek|]. exists v. split; [reflexivity|]. split; [|split].
+          -- rewrite rec_put_all, get_group. destruct (node_dec d d); [|congruence].
+             destruct (node_dec (owner_r k) d); [|congruence]. rewrite Ev. reflexivity.
+          -- left. rewrite rec_put_all. destruct (node_dec src d); [congruence|exact Ev].
+          -- intros n Hn1 Hn2. rewrite rec_put_all. destruct (node_dec n d); [congruence|reflexivity].
+        * left. intros n. rewrite rec_put_all, get_group, Ev.
+          destruct (node_dec n d); [|reflexivity]. destruct (node_dec (owner_r k) d); reflexivity.
+      + left. intros n. rewrite rec_put_all, get_group.
+        destruct (node_dec n d); [|reflexivity]. destruct (node_dec (owner_r k) d); [congruence|reflexivity].
+  Qed.
+
+  (* the fault-free group transfer leaves no record owned by d on src *)
+  Lemma send_group_ff src d (st : state A) k :
+    owner_r k = d -> rec_ (fst (send_group RNone src d st)) src k = None.
+  Proof.
+    intros Ek. unfold Model_C14.send_group. cbn [fst]. rewrite rec_del_all.
+    destruct (node_dec src src); [|congruence].
+    destruct (in_dec key_dec k _) as [I|I]; [reflexivity|].
+    rewrite in_group_keys in I. rewrite rec_put_all, get_group.
+    destruct (rec_ st src k) eqn:Ev; [exfalso; apply I; split; [exact Ek|congruence]|].
+    destruct (node_dec src d); [|reflexivity]. destruct (node_dec (owner_r k) d); reflexivity.
+  Qed.
+  Lemma send_group_ok rf src d (st : state A) : snd (send_group rf src d st) = match rf with RNone => true | _ => false end.
+  Proof. unfold Model_C14.send_group. destruct rf; reflexivity. Qed.
+
+
+  (* ---------------- the invariant ---------------- *)
+  Definition inv_f (st0 st : state A) : Prop :=
+    (forall n p g, n <> owner_f p -> file st n p = Some g -> exists n0, file st0 n0 p = Some g) /\
+    (forall n0 p f, file st0 n0 p = Some f ->
+       (exists n, n <> owner_f p /\ file st n p = Some f) \/ file st (owner_f p) p = Some f) /\
+    (forall n p g, file st n p = Some g -> exists n0 f, file st0 n0 p = Some f).
+  Definition inv_r (st0 st : state A) : Prop :=
+    (forall n k w, n <> owner_r k -> rec_ st n k = Some w -> exists n0, rec_ st0 n0 k = Some w) /\
+    (forall n0 k v, rec_ st0 n0 k = Some v ->
+       (exists n, n <> owner_r k /\ rec_ st n k = Some v) \/ rec_ st (owner_r k) k = Some v) /\
+    (forall n k w, rec_ st n k = Some w -> exists n0 v, rec_ st0 n0 k = Some v).
+  Definition inv (st0 st : state A) : Prop := inv_f st0 st /\ inv_r st0 st.
+
+  Lemma inv_refl (st0 : state A) : inv st0 st0.
+  Proof.
+    split; (split; [|split]).
+    - intros n p g _ Hg. eauto.
+    - intros n0 p f Hf. destruct (node_dec n0 (owner_f p)); [subst; right; exact Hf|left; eauto].
+    - intros n p g Hg. eauto.
+    - intros n k w _ Hw. eauto.
+    - intros n0 k v Hv. destruct (node_dec n0 (owner_r k)); [subst; right; exact Hv|left; eauto].
+    - intros n k w Hw. eauto.
+  Qed.
+
+  Lemma inv_f_file_step (st0 st st' : state A) src p :
+    agree_files st0 -> inv_f st0 st -> file_step src p st st' -> inv_f st0 st'.
+  Proof.
+    intros Hag (I1 & I2 & I3) (Hne & Hfr & Hrec & Hnone & Hsrc).
+    split; [|split].
+    - intros n q g Hn Hg. destruct (path_dec q p) as [->|Hq].
+      + destruct (node_dec n src) as [->|Hns].
+        * destruct Hsrc as [E|(f & _ & E & _)]; [rewrite E in Hg; eauto|congruence].
+        * rewrite Hfr in Hg by tauto. eauto.
+      + rewrite Hfr in Hg by tauto. eauto.
+    - intros n0 q f H0. destruct (path_dec q p) as [->|Hq].
+      + assert (Hleft : (exists n, n <> owner_f p /\ file st n p = Some f) ->
+                        (exists n, n <> owner_f p /\ file st' n p = Some f) \/ file st' (owner_f p) p = Some f).
+        { intros (n & Hn & Hf). destruct (node_dec n src) as [->|Hns].
+          - destruct Hsrc as [E|(f' & E1 & E2 & E3)].
+            + left. exists src. split; [exact Hn|congruence].
+            + right. congruence.
+          - left. exists n. split; [exact Hn|]. rewrite Hfr by tauto. exact Hf. }
+        destruct (I2 _ _ _ H0) as [L|R]; [auto|].
+        destruct (file st src p) as [g|] eqn:Eg.
+        * destruct (I1 _ _ _ Hne Eg) as [n1 H1]. rewrite (Hag _ _ _ _ _ H1 H0) in Eg. apply Hleft. eauto.
+        * right. rewrite Hnone by reflexivity. exact R.
+      + destruct (I2 _ _ _ H0) as [(n & Hn & Hf)|R].
+        * left. exists n. split; [exact Hn|]. rewrite Hfr by tauto. exact Hf.
+        * right. rewrite Hfr by tauto. exact R.
+    - intros n q g Hg. destruct (path_dec q p) as [->|Hq].
+      + destruct (node_dec n src) as [->|Hns].
+        * destruct Hsrc as [E|(f & _ & E & _)]; [rewrite E in Hg; eauto|congruence].
+        * destruct (node_dec n (owner_f p)) as [->|Hno].
+          -- destruct (file st src p) as [g'|] eqn:Eg; [eauto|]. rewrite Hnone in Hg by reflexivity. eauto.
+          -- rewrite Hfr in Hg by tauto. eauto.
+      + rewrite Hfr in Hg by tauto. eauto.
+  Qed.
+
+  Lemma inv_f_rec_step (st0 st st' : state A) src d : inv_f st0 st -> rec_step src d st st' -> inv_f st0 st'.
+  Proof.
+    intros (I1 & I2 & I3) (_ & Hf & _). split; [|split].
+    - intros n p g Hn Hg. rewrite Hf in Hg. eauto.
+    - intros n0 p f H0. destruct (I2 _ _ _ H0) as [(n & Hn & E)|R].
+      + left. exists n. rewrite Hf. auto.
+      + right. rewrite Hf. exact R.
+    - intros n p g Hg. rewrite Hf in Hg. eauto.
+  Qed.
+
+  Lemma inv_r_file_step (st0 st st' : state A) src p : inv_r st0 st -> file_step src p st st' -> inv_r st0 st'.
+  Proof.
+    intros (I1 & I2 & I3) (_ & _ & Hr & _). split; [|split].
+    - intros n k w Hn Hw. rewrite Hr in Hw. eauto.
+    - intros n0 k v H0. destruct (I2 _ _ _ H0) as [(n & Hn & E)|R].
+      + left. exists n. rewrite Hr. auto.
+      + right. rewrite Hr. exact R.
+    - intros n k w Hw. rewrite Hr in Hw. eauto.
+  Qed.
+
+  Lemma inv_r_rec_step (st0 st st' : state A) src d :
+    agree_recs st0 -> inv_r st0 st -> rec_step src d st st' -> inv_r st0 st'.
+  Proof.
+    intros Hag (I1 & I2 & I3) (Hne & _ & Hk). split; [|split].
+    - intros n k w Hn Hw. destruct (Hk k) as [Same|(Ek & v & Es & Ed & Esrc & Hoth)].
+      + rewrite Same in Hw. eauto.
+      + destruct (node_dec n src) as [->|Hns].
+        * destruct Esrc as [E|E]; [|congruence]. rewrite E in Hw. inversion Hw; subst.
+          apply (I1 src k w); [congruence|exact Es].
+        * rewrite Hoth in Hw by congruence. eauto.
+    - intros n0 k v0 H0. destruct (Hk k) as [Same|(Ek & v & Es & Ed & Esrc & Hoth)].
+      + destruct (I2 _ _ _ H0) as [(n & Hn & E)|R].
+        * left. exists n. rewrite Same. auto.
+        * right. rewrite Same. exact R.
+      + right. destruct (I1 src k v) as [n1 H1]; [congruence|exact Es|].
+        rewrite (Hag _ _ _ _ _ H1 H0) in Ed. rewrite Ek. exact Ed.
+    - intros n k w Hw. destruct (Hk k) as [Same|(Ek & v & Es & Ed & Esrc & Hoth)].
+      + rewrite Same in Hw. eauto.
+      + eauto.
+  Qed.
+
+  (* ---------------- micro-steps ---------------- *)
+  Definition mstep (st st' : state A) : Prop :=
+    (exists src p, file_step src p st st') \/ (exists src d, rec_step src d st st').
+  Definition msteps : state A -> state A -> Prop := clos_refl_trans _ mstep.
+
+
+  Lemma inv_mstep (st0 st st' : state A) : good st0 -> inv st0 st -> mstep st st' -> inv st0 st'.
+  Proof.
+    intros (Ha & Hb & _) [If Ir] [(src & p & S)|(src & d & S)]; split.
+    - eapply inv_f_file_step; eauto.
+    - eapply inv_r_file_step; eauto.
+    - eapply inv_f_rec_step; eauto.
+    - eapply inv_r_rec_step; eauto.
+  Qed.
+  Lemma inv_msteps (st0 st st' : state A) : good st0 -> msteps st st' -> inv st0 st -> inv st0 st'.
+  Proof. intros G M. induction M; intros I; eauto using inv_mstep. Qed.
+
+  (* a node never gains an item it does not own *)
+  Lemma file_none_mstep (st st' : state A) s p :
+    mstep st st' -> owner_f p <> s -> file st s p = None -> file st' s p = None.
+  Proof.
+    intros [(src & q & (Hne & Hfr & _ & _ & Hsrc))|(src & d & (_ & Hf & _))] Ho Hn.
+    - destruct (path_dec p q) as [->|Hq].
+      + destruct (node_dec s src) as [->|Hs].
+        * destruct Hsrc as [E|(f & _ & E & _)]; congruence.
+        * rewrite Hfr; [exact Hn| |tauto]. intros [E _]. congruence.
+      + rewrite Hfr; [exact Hn|tauto|tauto].
+    - rewrite Hf. exact Hn.
+  Qed.
+  Lemma rec_none_mstep (st st' : state A) s k :
+    mstep st st' -> owner_r k <> s -> rec_ st s k = None -> rec_ st' s k = None.
+  Proof.
+    intros [(src & q & (_ & _ & Hr & _))|(src & d & (Hne & _ & Hk))] Ho Hn.
+    - rewrite Hr. exact Hn.
+    - destruct (Hk k) as [Same|(Ek & v & Es & Ed & Esrc & Hoth)].
+      + rewrite Same. exact Hn.
+      + destruct (node_dec s src) as [->|Hs]; [congruence|].
+        rewrite Hoth; [exact Hn|exact Hs|congruence].
+  Qed.
+  Lemma file_none_msteps (st st' : state A) s p :
+    msteps st st' -> owner_f p <> s -> file st s p = None -> file st' s p = None.
+  Proof. intros M Ho. induction M; intros Hn; eauto using file_none_mstep. Qed.
+  Lemma rec_none_msteps (st st' : state A) s k :
+    msteps st st' -> owner_r k <> s -> rec_ st s k = None -> rec_ st' s k = None.
+  Proof. intros M Ho. induction M; intros Hn; eauto using rec_none_mstep. Qed.
+
+  Definition clean_f (st : state A) (s : node) : Prop := forall p, owner_f p <> s -> file st s p = None.
+  Definition clean_r (st : state A) (s : node) : Prop := forall k, owner_r k <> s -> rec_ st s k = None.
+  Lemma clean_f_msteps (st st' : state A) s : msteps st st' -> clean_f st s -> clean_f st' s.
+  Proof. intros M C p Hp. eapply file_none_msteps; eauto. Qed.
+  Lemma clean_r_msteps (st st' : state A) s : msteps st st' -> clean_r st s -> clean_r st' s.
+  Proof. intros M C k Hk. eapply rec_none_msteps; eauto. Qed.
+
+  Lemma converged_of_clean (st0 st : state A) :
+    good st0 -> inv st0 st -> (forall n, clean_f st n /\ clean_r st n) -> converged owner_r owner_f st0 st.
+  Proof.
+    intros (Ha & Hb & _) [(F1 & F2 & F3) (R1 & R2 & R3)] C.
+    assert (HF : forall n0 p f, file st0 n0 p = Some f -> file st (owner_f p) p = Some f).
+    { intros n0 p f H0. destruct (F2 _ _ _ H0) as [(n & Hn & E)|R]; [|exact R].
+      destruct (C n) as [Cf _]. rewrite Cf in E by congruence. discriminate. }
+    assert (HR : forall n0 k v, rec_ st0 n0 k = Some v -> rec_ st (owner_r k) k = Some v).
+    { intros n0 k v H0. destruct (R2 _ _ _ H0) as [(n & Hn & E)|R]; [|exact R].
+      destruct (C n) as [_ Cr]. rewrite Cr in E by congruence. discriminate. }
+    split; [exact HF|]. split; [|split; [exact HR|]].
+    - intros n p g Hg. assert (n = owner_f p) as ->.
+      { destruct (node_dec n (owner_f p)); [assumption|]. destruct (C n) as [Cf _]. rewrite Cf in Hg by congruence. discriminate. }
+      split; [reflexivity|]. destruct (F3 _ _ _ Hg) as (n0 & f & H0). exists n0.
+      rewrite (HF _ _ _ H0) in Hg. congruence.
+    - intros n k w Hw. assert (n = owner_r k) as ->.
+      { destruct (node_dec n (owner_r k)); [assumption|]. destruct (C n) as [_ Cr]. rewrite Cr in Hw by congruence. discriminate. }
+      split; [reflexivity|]. destruct (R3 _ _ _ Hw) as (n0 & v & H0). exists n0.
+      rewrite (HR _ _ _ H0) in Hw. congruence.
+  Qed.
+
+  Lemma no_loss_of_inv (st0 st : state A) : inv st0 st -> no_loss st0 st.
+  Proof.
+    intros [(_ & F2 & _) (_ & R2 & _)]. split.
+    - intros n0 p f H0. destruct (F2 _ _ _ H0) as [(n & _ & E)|R]; eauto.
+    - intros n0 k v H0. destruct (R2 _ _ _ H0) as [(n & _ & E)|R]; eauto.
+  Qed.
+
+
+  (* ---------------- reachable states ---------------- *)
+  Notation reach := (reach H_dec hash h0 chunk owner_r owner_f).
+  Notation step := (step H_dec hash h0 chunk owner_r owner_f).
+  Notation shards_loop := (shards_loop H_dec hash h0 chunk owner_f).
+  Notation sync_shards := (sync_shards H_dec hash h0 chunk owner_f).
+  Notation groups_loop := (groups_loop owner_r).
+  Notation sync_records := (sync_records owner_r).
+  Notation sync_node := (sync_node H_dec hash h0 chunk owner_r owner_f).
+  Notation sync_all := (sync_all H_dec hash h0 chunk owner_r owner_f).
+  Notation collision_free := (collision_free hash).
+
+  Lemma reach_trans fixed (a b c : state A) : reach fixed a b -> reach fixed b c -> reach fixed a c.
+  Proof.
+    intros Hab Hbc. apply clos_rt_rtn1. eapply rt_trans; apply clos_rtn1_rt; eassumption.
+  Qed.
+  Lemma reach_refl fixed (a : state A) : reach fixed a a.
+  Proof. apply rtn1_refl. Qed.
+  Lemma reach_step fixed (a b : state A) : step fixed a b -> reach fixed a b.
+  Proof. intros S. eapply Relation_Operators.rtn1_trans; [exact S|apply rtn1_refl]. Qed.
+
+  Lemma step_mstep fixed (st0 st st' : state A) :
+    good st0 -> (fixed = true \/ collision_free st0) -> inv st0 st -> step fixed st st' -> mstep st st'.
+  Proof.
+    intros (Ha & _ & Hne) Hcf [(F1 & _ & _) _] S. destruct S as [st src p fa Hs|st src d rf Hs].
+    - left. exists src, p. apply send_file_step; [exact Hs|].
+      intros f Hf. destruct (F1 _ _ _ Hs Hf) as [n0 H0]. split; [eapply Hne; eauto|].
+      destruct Hcf as [Hx|Hcf]; [left; exact Hx|right; eapply Hcf; eauto].
+    - right. exists src, d. apply send_group_step. exact Hs.
+  Qed.
+
+  Lemma reach_inv fixed (st0 st : state A) :
+    good st0 -> (fixed = true \/ collision_free st0) -> reach fixed st0 st -> msteps st0 st /\ inv st0 st.
+  Proof.
+    intros G Hcf R. induction R as [|st st' S R IH].
+    - split; [apply rt_refl|apply inv_refl].
+    - destruct IH as [M I]. assert (MS : mstep st st') by (eapply step_mstep; eauto).
+      split; [eapply rt_trans; [exact M|apply rt_step; exact MS]|eapply inv_mstep; eauto].
+  Qed.
+
+  (* the loops of the two phases only make such steps *)
+  Lemma shards_loop_reach fixed ff s : forall ps dead (st : state A),
+    (forall p, In p ps -> owner_f p <> s) -> reach fixed st (fst (shards_loop fixed ff s ps dead st)).
+  Proof.
+    induction ps as [|p ps IH]; intros dead st Hps; cbn [Model_C14.shards_loop]; [apply reach_refl|].
+    destruct (in_dec node_dec (owner_f p) dead).
+    - apply IH. intros q Hq. apply Hps. right; exact Hq.
+    - destruct (send_file fixed (ff p) s (owner_f p) p st) as [st1 ok] eqn:E.
+      eapply reach_trans; [|apply IH; intros q Hq; apply Hps; right; exact Hq].
+      replace st1 with (fst (send_file fixed (ff p) s (owner_f p) p st)) by (rewrite E; reflexivity).
+      apply reach_step. constructor. intros Hx. apply (Hps p); [left; reflexivity|congruence].
+  Qed.
+
+  Lemma to_move_spec s (st : state A) p :
+    In p (to_move owner_f s st) <-> owner_f p <> s /\ file st s p <> None.
+  Proof.
+    unfold to_move. rewrite filter_In, <- (al_get_in_keys path_dec). unfold file.
+    destruct (node_dec (owner_f p) s); split; intros; try tauto.
+    destruct H0; discriminate.
+  Qed.
+
+  Lemma sync_shards_reach fixed ff s (st : state A) : reach fixed st (fst (sync_shards fixed ff s st)).
+  Proof.
+    unfold Model_C14.sync_shards.
+    pose proof (shards_loop_reach fixed ff s (to_move owner_f s st) [] st) as R.
+    destruct (shards_loop fixed ff s (to_move owner_f s st) [] st) as [st' dead]. cbn [fst] in *.
+    apply R. intros p Hp. apply to_move_spec in Hp. tauto.
+  Qed.
+
+  Lemma groups_loop_reach fixed rf s : forall ds (st : state A) ok,
+    (forall d, In d ds -> d <> s) -> reach fixed st (fst (groups_loop rf s ds st ok)).
+  Proof.
+    induction ds as [|d ds IH]; intros st ok Hds; cbn [Model_C14.groups_loop]; [apply reach_refl|].
+    destruct (send_group (rf d) s d st) as [st1 ok1] eqn:E.
+    eapply reach_trans; [|apply IH; intros x Hx; apply Hds; right; exact Hx].
+    replace st1 with (fst (send_group (rf d) s d st)) by (rewrite E; reflexivity).
+    apply reach_step. constructor. intros Hx. apply (Hds d); [left; reflexivity|congruence].
+  Qed.
+
+  Lemma rec_dests_spec s (st : state A) d :
+    In d (rec_dests owner_r s st) <-> d <> s /\ exists k, owner_r k = d /\ rec_ st s k <> None.
+  Proof.
+    unfold rec_dests. rewrite nodup_In, filter_In, in_map_iff. split.
+    - intros [(kv & E & Hin) Hd]. split; [destruct (node_dec d s); [discriminate|assumption]|].
+      exists (fst kv). split; [exact E|]. unfold rec_. rewrite (al_get_in_map_fst key_dec). apply in_map. exact Hin.
+    - intros [Hd (k & E & Hk)]. split; [|destruct (node_dec d s); [contradiction|reflexivity]].
+      unfold rec_ in Hk. rewrite (al_get_in_map_fst key_dec) in Hk. apply in_map_iff in Hk.
+      destruct Hk as (kv & E1 & Hin). exists kv. split; [congruence|exact Hin].
+  Qed.
+
+  Lemma sync_records_reach fixed rf s (st : state A) : reach fixed st (fst (sync_records rf s st)).
+  Proof.
+    unfold Model_C14.sync_records. apply groups_loop_reach.
+    intros d Hd. apply rec_dests_spec in Hd. tauto.
+  Qed.
+
+  Lemma sync_node_reach fixed nf s (st : state A) : reach fixed st (fst (sync_node fixed nf s st)).
+  Proof.
+    unfold Model_C14.sync_node.
+    pose proof (sync_records_reach fixed (nf_rec nf) s st) as R1.
+    destruct (sync_records (nf_rec nf) s st) as [st1 ok1]. cbn [fst] in R1.
+    destruct ok1; [|exact R1]. destruct (nf_crash nf); [exact R1|].
+    eapply reach_trans; [exact R1|apply sync_shards_reach].
+  Qed.
+
+  Lemma sync_all_reach fixed : forall plan (st : state A), reach fixed st (fst (sync_all fixed plan st)).
+  Proof.
+    induction plan as [|[s nf] plan IH]; intros st; cbn [Model_C14.sync_all]; [apply reach_refl|].
+    pose proof (sync_node_reach fixed nf s st) as R1.
+    destruct (sync_node fixed nf s st) as [st1 ok]. cbn [fst] in R1.
+    specialize (IH st1). destruct (sync_all fixed plan st1) as [st2 oks]. cbn [fst] in *.
+    eapply reach_trans; eauto.
+  Qed.
+
+  Lemma run_phases_reach fixed : forall sched (st : state A),
+    reach fixed st (run_phases H_dec hash h0 chunk owner_r owner_f fixed sched st).
+  Proof.
+    induction sched as [|ph sched IH]; intros st; cbn [run_phases fold_left]; [apply reach_refl|].
+    eapply reach_trans; [|apply IH].
+    destruct ph; cbn [run_phase]; [apply sync_records_reach|apply sync_shards_reach].
+  Qed.
+
+  (* ---------------- c14_no_loss ---------------- *)
+  Lemma thm_no_loss fixed (st0 st : state A) :
+    good st0 -> (fixed = true \/ collision_free st0) -> reach fixed st0 st -> no_loss st0 st.
+  Proof. intros G C R. apply no_loss_of_inv. eapply reach_inv; eauto. Qed.
+
+  (* ---------------- c14_source_removed_only_after_verified ---------------- *)
+  Lemma thm_source_removed fixed fa src dst p (st : state A) f :
+    src <> dst -> file st src p = Some f -> f <> [] ->
+    file (fst (send_file fixed fa src dst p st)) src p = None ->
+    snd (send_file fixed fa src dst p st) = true /\
+    exists c, file (fst (send_file fixed fa src dst p st)) dst p = Some c /\ hash c = hash f /\
+              ((forall g, hash g = hash f -> g = f) -> c = f).
+  Proof.
+    intros Hs Hf Hne Hrm.
+    destruct (send_file_cases fixed fa src dst p st) as [[Hn E]|(f' & Hf' & [E|[(c & E)|(c & E & Hc & _)]])];
+      rewrite E in *; cbn [fst snd] in *.
+    - congruence.
+    - congruence.
+    - rewrite file_set_file in Hrm. destruct (node_dec src dst); congruence.
+    - split; [reflexivity|]. exists c. assert (f' = f) by congruence. subst f'.
+      split; [|split; [auto|auto]].
+      rewrite file_del_file. destruct (node_dec dst src); [congruence|].
+      rewrite file_set_file. destruct (node_dec dst dst); [|congruence]. destruct (path_dec p p); congruence.
+  Qed.
+
+
+  (* ---------------- fault-free synchronisation ---------------- *)
+  Definition ready (fixed : bool) (st : state A) : Prop := fixed = true \/ once_files st.
+
+  Lemma once_move (st : state A) s d p f :
+    s <> d -> file st s p = Some f -> once_files st ->
+    once_files (del_file (set_file st d p f) s p).
+  Proof.
+    intros Hsd Hf On n1 n2 q H1 H2.
+    assert (Char : forall n, file (del_file (set_file st d p f) s p) n q <> None ->
+                   (q = p /\ n = d) \/ (q <> p /\ file st n q <> None)).
+    { intros n Hn. rewrite file_del_file, file_set_file in Hn.
+      destruct (path_dec q p) as [->|Hq].
+      - left. split; [reflexivity|].
+        destruct (node_dec n s) as [->|Hns]; [congruence|].
+        destruct (node_dec n d) as [->|Hnd]; [reflexivity|].
+        exfalso. apply Hns. apply (On n s p); congruence.
+      - right. split; [exact Hq|]. destruct (node_dec n s); destruct (node_dec n d); exact Hn. }
+    destruct (Char _ H1) as [[-> ->]|[Hq1 G1]]; destruct (Char _ H2) as [[E2 ->]|[Hq2 G2]]; try congruence.
+    eapply On; eauto.
+  Qed.
+
+  Lemma ready_dst fixed (st : state A) s p f :
+    ready fixed st -> s <> owner_f p -> file st s p = Some f ->
+    fixed = true \/ file st (owner_f p) p = None.
+  Proof.
+    intros [R|On] Hs Hf; [left; exact R|right].
+    destruct (file st (owner_f p) p) eqn:E; [|reflexivity].
+    exfalso. apply Hs. apply (On s (owner_f p) p); congruence.
+  Qed.
+
+  Lemma shards_loop_ff fixed ff s (st0 : state A) :
+    good st0 -> (forall p, ff p = None) ->
+    forall ps (st : state A), NoDup ps ->
+      (forall p, In p ps -> owner_f p <> s /\ file st s p <> None) ->
+      inv st0 st -> ready fixed st ->
+      exists st', shards_loop fixed ff s ps [] st = (st', []) /\ msteps st st' /\ ready fixed st' /\
+                  (forall p, In p ps -> file st' s p = None).
+  Proof.
+    intros G Hff. induction ps as [|p ps IH]; intros st Hnd Hps I Rd.
+    - exists st. split; [reflexivity|]. split; [apply rt_refl|]. split; [exact Rd|]. intros p [].
+    - cbn [Model_C14.shards_loop]. destruct (in_dec node_dec (owner_f p) []) as [[]|_].
+      destruct (Hps p (or_introl eq_refl)) as [Hop Hfp].
+      destruct (file st s p) as [f|] eqn:Ef; [|congruence].
+      assert (Hs : s <> owner_f p) by congruence.
+      assert (Hne : f <> []).
+      { destruct I as [(F1 & _ & _) _]. destruct (F1 _ _ _ Hs Ef) as [n0 H0].
+        destruct G as (_ & _ & Gne). eapply Gne; eauto. }
+      rewrite (send_file_ff fixed (ff p) s (owner_f p) p st f Ef Hne).
+      2:{ intros j. rewrite Hff. reflexivity. }
+      2:{ eapply ready_dst; eauto. }
+      set (st1 := del_file (set_file st (owner_f p) p f) s p).
+      assert (FS : file_step s p st st1) by (apply file_step_move; auto).
+      assert (MS : mstep st st1) by (left; eauto).
+      inversion Hnd as [|? ? Hnin Hnd']; subst.
+      destruct (IH st1 Hnd') as (st' & E & M & Rd' & Hnone).
+      + intros q Hq. destruct (Hps q (or_intror Hq)) as [Hoq Hfq]. split; [exact Hoq|].
+        unfold st1. rewrite file_del_file, file_set_file.
+        destruct (path_dec q p) as [->|Hqp]; [contradiction|].
+        destruct (node_dec s s); destruct (node_dec s (owner_f p)); exact Hfq.
+      + eapply inv_mstep; eauto.
+      + destruct Rd as [R|On]; [left; exact R|right]. apply once_move; auto.
+      + exists st'. split; [exact E|]. split; [eapply rt_trans; [apply rt_step; exact MS|exact M]|].
+        split; [exact Rd'|]. intros q [->|Hq]; [|auto].
+        eapply file_none_msteps; [exact M|congruence|].
+        unfold st1. rewrite file_del_file. destruct (node_dec s s); [|congruence].
+        destruct (path_dec q q); congruence.
+  Qed.
+
+  Lemma sync_shards_ff fixed ff s (st0 st : state A) :
+    good st0 -> (forall p, ff p = None) -> inv st0 st -> ready fixed st ->
+    exists st', sync_shards fixed ff s st = (st', true) /\ msteps st st' /\ ready fixed st' /\ clean_f st' s.
+  Proof.
+    intros G Hff I Rd. unfold Model_C14.sync_shards.
+    destruct (shards_loop_ff fixed ff s st0 G Hff (to_move owner_f s st) st) as (st' & E & M & Rd' & Hn); auto.
+    - unfold to_move. apply NoDup_filter. apply NoDup_nodup.
+    - intros p Hp. apply to_move_spec in Hp. exact Hp.
+    - rewrite E. exists st'. repeat split; auto.
+      intros p Hp. destruct (file st s p) eqn:Ef.
+      + apply Hn. apply to_move_spec. split; [exact Hp|congruence].
+      + eapply file_none_msteps; eauto.
+  Qed.
+
+  Lemma groups_loop_ff rf s : (forall d, rf d = RNone) -> forall ds (st : state A),
+    (forall d, In d ds -> d <> s) ->
+    exists st', groups_loop rf s ds st true = (st', true) /\ msteps st st' /\
+                (forall n p, file st' n p = file st n p) /\
+                (forall k, In (owner_r k) ds -> rec_ st' s k = None).
+  Proof.
+    intros Hrf. induction ds as [|d ds IH]; intros st Hds.
+    - exists st. split; [reflexivity|]. split; [apply rt_refl|]. split; [reflexivity|]. intros k [].
+    - cbn [Model_C14.groups_loop]. rewrite Hrf.
+      assert (Hd : s <> d) by (intros E; apply (Hds d); [left; reflexivity|congruence]).
+      pose proof (send_group_step RNone s d st Hd) as RS.
+      pose proof (send_group_ok RNone s d st) as Ok.
+      pose proof (send_group_ff s d st) as FF.
+      destruct (send_group RNone s d st) as [st1 ok1]. cbn [fst snd] in *. subst ok1. cbn [andb].
+      destruct (IH st1) as (st' & E & M & Hf & Hk); [intros x Hx; apply Hds; right; exact Hx|].
+      assert (MS : mstep st st1) by (right; eauto).
+      exists st'. split; [exact E|]. split; [eapply rt_trans; [apply rt_step; exact MS|exact M]|].
+      split.
+      + intros n p. rewrite Hf. destruct RS as (_ & Hff & _). apply Hff.
+      + intros k [Ek|Hin]; [|auto]. eapply rec_none_msteps; [exact M|congruence|]. apply FF. congruence.
+  Qed.
+
+  Lemma sync_records_ff rf s (st : state A) : (forall d, rf d = RNone) ->
+    exists st', sync_records rf s st = (st', true) /\ msteps st st' /\
+                (forall n p, file st' n p = file st n p) /\ clean_r st' s.
+  Proof.
+    intros Hrf. unfold Model_C14.sync_records.
+    destruct (groups_loop_ff rf s Hrf (rec_dests owner_r s st) st) as (st' & E & M & Hf & Hk).
+    - intros d Hd. apply rec_dests_spec in Hd. tauto.
+    - exists st'. repeat split; auto.
+      intros k Hk'. destruct (rec_ st s k) eqn:Er.
+      + apply Hk. apply rec_dests_spec. split; [exact Hk'|]. exists k. split; [reflexivity|congruence].
+      + eapply rec_none_msteps; eauto.
+  Qed.
+
+  Lemma once_files_ext (st st' : state A) :
+    (forall n p, file st' n p = file st n p) -> once_files st -> once_files st'.
+  Proof. intros E On n1 n2 p H1 H2. rewrite E in *. eapply On; eauto. Qed.
+
+  Lemma sync_node_ff fixed s (st0 st : state A) :
+    good st0 -> inv st0 st -> ready fixed st ->
+    exists st', sync_node fixed no_fault s st = (st', true) /\ msteps st st' /\ ready fixed st' /\
+                clean_f st' s /\ clean_r st' s.
+  Proof.
+    intros G I Rd. unfold Model_C14.sync_node. cbn [no_fault nf_rec nf_file nf_crash].
+    destruct (sync_records_ff (fun _ => RNone) s st) as (st1 & E1 & M1 & Hf1 & C1); [reflexivity|]. rewrite E1.
+    destruct (sync_shards_ff fixed (fun _ => None) s st0 st1 G) as (st2 & E2 & M2 & Rd2 & C2).
+    - reflexivity.
+    - eapply inv_msteps; eauto.
+    - destruct Rd as [R|On]; [left; exact R|right; eapply once_files_ext; eauto].
+    - rewrite E2. exists st2. split; [reflexivity|]. split; [eapply rt_trans; eauto|].
+      split; [exact Rd2|]. split; [exact C2|]. eapply clean_r_msteps; eauto.
+  Qed.
+
+  Lemma sync_all_ff fixed (st0 : state A) : good st0 ->
+    forall order (st : state A), inv st0 st -> ready fixed st ->
+      exists st', sync_all fixed (fault_free order) st = (st', map (fun _ => true) order) /\
+                  msteps st st' /\ ready fixed st' /\
+                  (forall s, In s order -> clean_f st' s /\ clean_r st' s).
+  Proof.
+    intros G. induction order as [|s order IH]; intros st I Rd.
+    - exists st. split; [reflexivity|]. split; [apply rt_refl|]. split; [exact Rd|]. intros s [].
+    - cbn [fault_free map Model_C14.sync_all].
+      destruct (sync_node_ff fixed s st0 st G I Rd) as (st1 & E1 & M1 & Rd1 & Cf & Cr). rewrite E1.
+      destruct (IH st1) as (st2 & E2 & M2 & Rd2 & C2); [eapply inv_msteps; eauto|exact Rd1|].
+      fold (fault_free order). rewrite E2. exists st2. split; [reflexivity|].
+      split; [eapply rt_trans; eauto|]. split; [exact Rd2|].
+      intros x [->|Hx]; [|auto]. split; [eapply clean_f_msteps; eauto|eapply clean_r_msteps; eauto].
+  Qed.
+
+  Lemma covers_clean order (st : state A) n : covers order st -> ~ In n order -> clean_f st n /\ clean_r st n.
+  Proof. intros C Hn. destruct (C n Hn) as [Cf Cr]. split; intros x _; auto. Qed.
+
+  Lemma converge_from fixed (st0 st : state A) order :
+    good st0 -> inv st0 st -> ready fixed st -> covers order st ->
+    converged owner_r owner_f st0 (fst (sync_all fixed (fault_free order) st)) /\
+    snd (sync_all fixed (fault_free order) st) = map (fun _ => true) order.
+  Proof.
+    intros G I Rd Cov.
+    destruct (sync_all_ff fixed st0 G order st I Rd) as (st' & E & M & _ & C). rewrite E. cbn [fst snd].
+    split; [|reflexivity]. apply converged_of_clean; [exact G|eapply inv_msteps; eauto|].
+    intros n. destruct (in_dec node_dec n order) as [Hin|Hnin]; [auto|].
+    destruct (covers_clean order st n Cov Hnin) as [Cf Cr].
+    split; [eapply clean_f_msteps; eauto|eapply clean_r_msteps; eauto].
+  Qed.
+
+  (* ---------------- c14_converges ---------------- *)
+  Lemma thm_converges fixed (st0 : state A) order :
+    good st0 -> (fixed = true \/ once_files st0) -> covers order st0 ->
+    converged owner_r owner_f st0 (fst (sync_all fixed (fault_free order) st0)) /\
+    snd (sync_all fixed (fault_free order) st0) = map (fun _ => true) order.
+  Proof. intros G Rd Cov. apply converge_from; auto. apply inv_refl. Qed.
+
+  (* ---------------- c14_resume ---------------- *)
+  Lemma thm_resume (st0 st : state A) order :
+    good st0 -> reach true st0 st -> covers order st ->
+    converged owner_r owner_f st0 (fst (sync_all true (fault_free order) st)) /\
+    snd (sync_all true (fault_free order) st) = map (fun _ => true) order.
+  Proof.
+    intros G R Cov. apply converge_from; auto.
+    - eapply (reach_inv true); eauto.
+    - left; reflexivity.
+  Qed.
+
+
+  (* ---------------- the phases of the nodes in any order ---------------- *)
+  Notation run_phases := (run_phases H_dec hash h0 chunk owner_r owner_f).
+  Notation run_phase := (run_phase H_dec hash h0 chunk owner_r owner_f).
+
+  Lemma run_phases_ff fixed (st0 : state A) : good st0 ->
+    forall sched (st : state A), inv st0 st -> ready fixed st -> Forall phase_ff sched ->
+      msteps st (run_phases fixed sched st) /\ ready fixed (run_phases fixed sched st) /\
+      (forall s rf, In (PRec s rf) sched -> clean_r (run_phases fixed sched st) s) /\
+      (forall s ff, In (PShard s ff) sched -> clean_f (run_phases fixed sched st) s).
+  Proof.
+    intros G. induction sched as [|ph sched IH]; intros st I Rd Hff.
+    - cbn. split; [apply rt_refl|]. split; [exact Rd|]. split; intros ? ? [].
+    - inversion Hff as [|? ? Hph Hff']; subst. cbn [Model_C14.run_phases fold_left].
+      fold (run_phases fixed sched (run_phase fixed ph st)).
+      assert (Hst1 : msteps st (run_phase fixed ph st) /\ ready fixed (run_phase fixed ph st) /\
+                     (forall s rf, ph = PRec s rf -> clean_r (run_phase fixed ph st) s) /\
+                     (forall s ff, ph = PShard s ff -> clean_f (run_phase fixed ph st) s)).
+      { destruct ph as [s rf|s ff]; cbn [Model_C14.run_phase phase_ff] in *.
+        - destruct (sync_records_ff rf s st Hph) as (st1 & E & M & Hf & C). rewrite E. cbn [fst].
+          split; [exact M|]. split; [destruct Rd as [R|On]; [left; exact R|right; eapply once_files_ext; eauto]|].
+          split; [intros s' rf' Eq; inversion Eq; subst; exact C|intros ? ? Eq; discriminate].
+        - destruct (sync_shards_ff fixed ff s st0 st G Hph I Rd) as (st1 & E & M & Rd1 & C). rewrite E. cbn [fst].
+          split; [exact M|]. split; [exact Rd1|].
+          split; [intros ? ? Eq; discriminate|intros s' ff' Eq; inversion Eq; subst; exact C]. }
+      destruct Hst1 as (M1 & Rd1 & Cr1 & Cf1).
+      destruct (IH (run_phase fixed ph st)) as (M2 & Rd2 & Cr2 & Cf2); [eapply inv_msteps; eauto|exact Rd1|exact Hff'|].
+      split; [eapply rt_trans; eauto|]. split; [exact Rd2|]. split.
+      + intros s rf [Eq|Hin]; [eapply clean_r_msteps; eauto|eauto].
+      + intros s ff [Eq|Hin]; [eapply clean_f_msteps; eauto|eauto].
+  Qed.
+
+  Lemma thm_converges_phases fixed (st0 : state A) sched :
+    good st0 -> (fixed = true \/ once_files st0) -> Forall phase_ff sched -> covers_phases sched st0 ->
+    converged owner_r owner_f st0 (run_phases fixed sched st0).
+  Proof.
+    intros G Rd Hff Cov.
+    destruct (run_phases_ff fixed st0 G sched st0 (inv_refl st0) Rd Hff) as (M & _ & Cr & Cf).
+    apply converged_of_clean; [exact G|eapply inv_msteps; eauto; apply inv_refl|].
+    intros n. destruct (Cov n) as [HR HF]. split.
+    - destruct HF as [(ff & Hin)|Hf]; [eauto|]. eapply clean_f_msteps; [exact M|]. intros p _. apply Hf.
+    - destruct HR as [(rf & Hin)|Hr]; [eauto|]. eapply clean_r_msteps; [exact M|]. intros k _. apply Hr.
+  Qed.
+
+  (* ---------------- the pinned receiver: a restarted transfer appends ---------------- *)
+  Lemma send_file_append fa src dst p (st : state A) c f :
+    file st src p = Some f -> f <> [] -> file st dst p = Some c ->
+    (forall j, fails_at fa j = false) -> hash (c ++ f) <> hash f ->
+    send_file false fa src dst p st = (set_file st dst p (c ++ f), false).
+  Proof.
+    intros Ef Hf Ec Hfa Hh. unfold Model_C14.send_file. rewrite Ef.
+    destruct (rpc_chunks_split f) as (ds & Hds & Hlen & Hcat).
+    destruct (send_loop_ok false fa (rpc_chunks f) 0 (file st dst p) h0) as [ck L].
+    { rewrite Hds. destruct ds; discriminate. }
+    { intros; apply Hfa. }
+    rewrite L. rewrite Ec in *. cbn [eff_base andb] in *.
+    assert (Hc : concat (rpc_chunks f) = f).
+    { rewrite Hds, concat_app, Hcat. cbn. apply app_nil_r. }
+    rewrite Hc in *. rewrite Hfa.
+    pose proof L as L2. rewrite Hds in L2. apply send_loop_ck in L2; [|specialize (Hlen Hf); lia].
+    destruct L2 as (c' & Hc' & Hck). inversion Hc'; subst c'.
+    destruct (H_dec ck (hash f)); [congruence|reflexivity].
+  Qed.
+
+  Notation retries := (retries H_dec hash h0 chunk).
+
+  Lemma retries_append src dst p (st : state A) c f :
+    src <> dst -> file st src p = Some f -> f <> [] -> file st dst p = Some c -> c <> [] ->
+    (forall g, hash g = hash f -> g = f) ->
+    forall n, file (retries false n src dst p st) src p = Some f /\
+              (exists g, file (retries false n src dst p st) dst p = Some (c ++ g) /\
+                         length g = (n * length f)%nat) /\
+              send_file false None src dst p (retries false n src dst p st)
+              = (retries false (S n) src dst p st, false).
+  Proof.
+    intros Hsd Ef Hf Ec Hc Hinj.
+    assert (Hstep : forall st1 g, file st1 src p = Some f -> file st1 dst p = Some (c ++ g) ->
+              send_file false None src dst p st1 = (set_file st1 dst p ((c ++ g) ++ f), false)).
+    { intros st1 g E1 E2. apply send_file_append; auto.
+      intros Hh. apply Hinj in Hh. apply (f_equal (@length A)) in Hh.
+      rewrite !app_length in Hh. destruct c; [congruence|cbn in Hh; lia]. }
+    induction n as [|n IH].
+    - cbn [Model_C14.retries]. split; [exact Ef|]. split; [exists []; rewrite app_nil_r; split; [exact Ec|reflexivity]|].
+      rewrite (Hstep st [] Ef) by (rewrite app_nil_r; exact Ec). reflexivity.
+    - destruct IH as (I1 & (g & I2 & I2l) & _).
+      set (stn := retries false n src dst p st) in *.
+      assert (Es : retries false (S n) src dst p st = set_file stn dst p ((c ++ g) ++ f)).
+      { cbn [Model_C14.retries]. fold stn. rewrite (Hstep stn g I1 I2). reflexivity. }
+      assert (E1 : file (set_file stn dst p ((c ++ g) ++ f)) src p = Some f).
+      { rewrite file_set_file. destruct (node_dec src dst); [congruence|exact I1]. }
+      assert (E2 : file (set_file stn dst p ((c ++ g) ++ f)) dst p = Some (c ++ (g ++ f))).
+      { rewrite file_set_file. destruct (node_dec dst dst); [|congruence].
+        destruct (path_dec p p); [|congruence]. rewrite app_assoc. reflexivity. }
+      split; [rewrite Es; exact E1|].
+      split; [exists (g ++ f); split; [rewrite Es; exact E2|rewrite app_length, I2l; cbn; lia]|].
+      cbn [Model_C14.retries]. fold stn.
+      change (fst (send_file false None src dst p stn)) with (retries false (S n) src dst p st).
+      rewrite Es. rewrite (Hstep _ (g ++ f) E1 E2). reflexivity.
+  Qed.
+
+  (* a transfer interrupted at chunk k >= 1 leaves a non-empty partial file *)
+  Lemma interrupted_partial fixed src dst p (st : state A) f k :
+    src <> dst -> file st src p = Some f -> f <> [] -> file st dst p = None ->
+    (1 <= k < length (rpc_chunks f))%nat ->
+    file (fst (send_file fixed (Some k) src dst p st)) src p = Some f /\
+    snd (send_file fixed (Some k) src dst p st) = false /\
+    exists c, c <> [] /\ file (fst (send_file fixed (Some k) src dst p st)) dst p = Some c /\
+              c = concat (firstn k (rpc_chunks f)).
+  Proof.
+    intros Hsd Ef Hf Ed Hk. unfold Model_C14.send_file. rewrite Ef, Ed.
+    destruct (send_loop fixed (Some k) 0 (rpc_chunks f) None h0) as [cur res] eqn:L.
+    destruct res as [ck|].
+    - pose proof (send_loop_complete _ _ _ _ _ _ _ _ L k) as Hx.
+      cbn [fails_at] in Hx. rewrite Nat.eqb_refl in Hx. specialize (Hx ltac:(lia)). discriminate.
+    - apply send_loop_partial in L. destruct L as (k' & Hk' & Hfk & _ & Hcur).
+      cbn [fails_at] in Hfk. apply Nat.eqb_eq in Hfk. cbn in Hfk. subst k'.
+      destruct k as [|k]; [lia|]. cbn [eff_base app] in Hcur. subst cur. cbn [fst snd].
+      split; [rewrite file_set_file; destruct (node_dec src dst); [congruence|exact Ef]|].
+      split; [reflexivity|]. eexists. split; [|split; [|reflexivity]].
+      + destruct (thm_chunking f) as (_ & _ & ds & Hds & Hall & Hne).
+        rewrite Hds. specialize (Hne Hf). destruct ds as [|d ds]; [congruence|].
+        inversion Hall as [|? ? [Hd _] _]; subst. cbn. destruct d; [congruence|discriminate].
+      + rewrite file_set_file. destruct (node_dec dst dst); [|congruence]. destruct (path_dec p p); congruence.
+  Qed.
+
+  Lemma thm_retry_append src dst p (st : state A) f k :
+    src <> dst -> file st src p = Some f -> f <> [] -> file st dst p = None ->
+    (1 <= k < length (rpc_chunks f))%nat -> (forall g, hash g = hash f -> g = f) ->
+    let st1 := fst (send_file false (Some k) src dst p st) in
+    let c := concat (firstn k (rpc_chunks f)) in
+    c <> [] /\
+    forall n, file (retries false n src dst p st1) src p = Some f /\
+              (exists g, file (retries false n src dst p st1) dst p = Some (c ++ g) /\
+                         length g = (n * length f)%nat) /\
+              snd (send_file false None src dst p (retries false n src dst p st1)) = false.
+  Proof.
+    intros Hsd Ef Hf Ed Hk Hinj st1 c.
+    destruct (interrupted_partial false src dst p st f k Hsd Ef Hf Ed Hk) as (E1 & _ & c' & Hc & E2 & Hcc).
+    fold st1 in E1, E2. fold c in Hcc. subst c'. split; [exact Hc|]. intros n.
+    destruct (retries_append src dst p st1 c f Hsd E1 Hf E2 Hc Hinj n) as (R1 & (g & R2 & R2l) & R3).
+    split; [exact R1|]. split; [exists g; auto|rewrite R3; reflexivity].
+  Qed.
+
+
+  (* ---------------- an empty file is never moved ---------------- *)
+  Lemma thm_empty_file fixed src dst p (st : state A) :
+    src <> dst -> file st src p = Some [] -> hash [] <> h0 ->
+    snd (send_file fixed None src dst p st) = false /\
+    file (fst (send_file fixed None src dst p st)) src p = Some [] /\
+    length (rpc_chunks (@nil A)) = 1%nat.
+  Proof.
+    intros Hsd Ef Hh. unfold Model_C14.send_file. rewrite Ef. cbn.
+    destruct (H_dec h0 (hash [])) as [E|E]; [congruence|]. cbn.
+    split; [reflexivity|]. split; [|reflexivity].
+    rewrite file_set_file. destruct (node_dec src dst); [congruence|exact Ef].
+  Qed.
+
 End P.
+
+(* ------------------------------------------------------------------ *)
+(* statements without the section parameters they do not depend on      *)
+Definition unit_dec (a b : unit) : {a = b} + {a <> b} := match a, b with tt, tt => left eq_refl end.
+
+Lemma chunking_clean (A : Type) (chunk : nat) (f : list A) : (1 <= chunk)%nat ->
+  concat (rpc_chunks chunk f) = f /\
+  length (rpc_chunks chunk f) = S (ceil_div (length f) chunk) /\
+  (exists ds, rpc_chunks chunk f = ds ++ [[]] /\
+              Forall (fun c => c <> [] /\ (length c <= chunk)%nat) ds /\ (f <> [] -> ds <> [])).
+Proof. intros Hc. exact (thm_chunking unit_dec (fun _ => tt) tt chunk Hc f). Qed.
+
+Lemma ceil_div_spec a b : (1 <= b)%nat -> (b * ceil_div a b < a + b /\ a <= b * ceil_div a b)%nat.
+Proof.
+  intros Hb. unfold ceil_div.
+  pose proof (Nat.div_mod (a + b - 1) b ltac:(lia)) as E.
+  pose proof (Nat.mod_upper_bound (a + b - 1) b ltac:(lia)) as M.
+  split; nia.
+Qed.
+
+Lemma source_removed_clean (A H : Type) (H_dec : forall a b : H, {a = b} + {a <> b}) (hash : list A -> H) (h0 : H)
+      (chunk : nat) : (1 <= chunk)%nat ->
+  forall fixed fa src dst p (st : state A) f,
+    src <> dst -> file st src p = Some f -> f <> [] ->
+    file (fst (send_file H_dec hash h0 chunk fixed fa src dst p st)) src p = None ->
+    snd (send_file H_dec hash h0 chunk fixed fa src dst p st) = true /\
+    exists c, file (fst (send_file H_dec hash h0 chunk fixed fa src dst p st)) dst p = Some c /\ hash c = hash f /\
+              ((forall g, hash g = hash f -> g = f) -> c = f).
+Proof. intros Hc. exact (thm_source_removed H_dec hash h0 chunk (fun _ => []) (fun _ => []) Hc). Qed.
+
+(* with the repaired receiver the copy is the file itself, whatever the checksum function *)
+Lemma source_removed_fixed (A H : Type) (H_dec : forall a b : H, {a = b} + {a <> b}) (hash : list A -> H) (h0 : H)
+      (chunk : nat) : (1 <= chunk)%nat ->
+  forall fa src dst p (st : state A) f,
+    src <> dst -> file st src p = Some f ->
+    file (fst (send_file H_dec hash h0 chunk true fa src dst p st)) src p = None ->
+    file (fst (send_file H_dec hash h0 chunk true fa src dst p st)) dst p = Some f.
+Proof.
+  intros Hc fa src dst p st f Hs Hf Hrm.
+  destruct (send_file_cases H_dec hash h0 chunk (fun _ => []) (fun _ => []) Hc true fa src dst p st) as [[Hn E]|(f' & Hf' & [E|[(c & E)|(c & E & _ & Hfx)]])];
+    rewrite E in *; cbn [fst snd] in *.
+  - congruence.
+  - congruence.
+  - rewrite file_set_file in Hrm. destruct (node_dec src dst); congruence.
+  - rewrite (Hfx eq_refl). rewrite file_del_file. destruct (node_dec dst src); [congruence|].
+    rewrite file_set_file. destruct (node_dec dst dst); [|congruence]. destruct (path_dec p p); congruence.
+Qed.
+
+Lemma retry_append_clean (A H : Type) (H_dec : forall a b : H, {a = b} + {a <> b}) (hash : list A -> H) (h0 : H)
+      (chunk : nat) : (1 <= chunk)%nat ->
+  forall src dst p (st : state A) f k,
+    src <> dst -> file st src p = Some f -> f <> [] -> file st dst p = None ->
+    (1 <= k < length (rpc_chunks chunk f))%nat -> (forall g, hash g = hash f -> g = f) ->
+    let st1 := fst (send_file H_dec hash h0 chunk false (Some k) src dst p st) in
+    let c := concat (firstn k (rpc_chunks chunk f)) in
+    c <> [] /\
+    forall n, file (retries H_dec hash h0 chunk false n src dst p st1) src p = Some f /\
+              (exists g, file (retries H_dec hash h0 chunk false n src dst p st1) dst p = Some (c ++ g) /\
+                         length g = (n * length f)%nat) /\
+              snd (send_file H_dec hash h0 chunk false None src dst p
+                     (retries H_dec hash h0 chunk false n src dst p st1)) = false.
+Proof. intros Hc. exact (thm_retry_append H_dec hash h0 chunk (fun _ => []) (fun _ => []) Hc). Qed.
+
+Lemma reach_sync (A H : Type) (H_dec : forall a b : H, {a = b} + {a <> b}) (hash : list A -> H) (h0 : H)
+      (chunk : nat) (owner_r : key -> node) (owner_f : path -> node) (fixed : bool) :
+  (forall plan (st : state A),
+     reach H_dec hash h0 chunk owner_r owner_f fixed st (fst (sync_all H_dec hash h0 chunk owner_r owner_f fixed plan st))) /\
+  (forall sched (st : state A),
+     reach H_dec hash h0 chunk owner_r owner_f fixed st (run_phases H_dec hash h0 chunk owner_r owner_f fixed sched st)) /\
+  (forall a b c : state A, reach H_dec hash h0 chunk owner_r owner_f fixed a b ->
+     reach H_dec hash h0 chunk owner_r owner_f fixed b c -> reach H_dec hash h0 chunk owner_r owner_f fixed a c).
+Proof.
+  split; [|split].
+  - apply sync_all_reach.
+  - apply run_phases_reach.
+  - apply reach_trans.
+Qed.
+
+(* ------------------------------------------------------------------ *)
+(* the example placements satisfy the hypotheses                        *)
+From Coq Require Import String.
+From Semadb Require Import Model_C13.
+Open Scope string_scope.
+Lemma mk_state_get {A} (l : list (node * nstate A)) n :
+  mk_state l n = match al_get node_dec n l with Some x => x | None => mkN [] [] end.
+Proof. reflexivity. Qed.
+
+Ltac ex_nodes n :=
+  destruct (node_dec n ex_n1) as [->|?]; [|destruct (node_dec n ex_n2) as [->|?]].
+
+Lemma ex_file_cases n p f : file ex_st0 n p = Some f ->
+  (n = ex_n1 /\ p = ex_p1 /\ f = ex_f1) \/ (n = ex_n1 /\ p = ex_p2 /\ f = ex_f2) \/ (n = ex_n2 /\ p = ex_p3 /\ f = ex_f3).
+Proof.
+  unfold file, ex_st0. rewrite mk_state_get. cbn [al_get].
+  destruct (node_dec n ex_n1) as [->|N1].
+  - cbn [files al_get]. destruct (path_dec p ex_p1) as [->|P1]; [intros E; inversion E; auto|].
+    destruct (path_dec p ex_p2) as [->|P2]; [intros E; inversion E; auto|discriminate].
+  - destruct (node_dec n ex_n2) as [->|N2]; [|discriminate].
+    cbn [files al_get]. destruct (path_dec p ex_p3) as [->|P3]; [intros E; inversion E; auto 6|discriminate].
+Qed.
+
+Lemma ex_rec_cases n k v : rec_ ex_st0 n k = Some v -> (n = ex_n1 \/ n = ex_n2) /\ In (k, v)
+  [(str "u1/c1", [1; 1]%N); (str "u2/c1", [2; 2]%N); (str "u5/c9", [3]%N)] /\
+  (n = ex_n2 <-> k = str "u5/c9").
+Proof.
+  unfold rec_, ex_st0. rewrite mk_state_get. cbn [al_get].
+  destruct (node_dec n ex_n1) as [->|N1].
+  - cbn [recs al_get]. destruct (key_dec k (str "u1/c1")) as [->|K1].
+    + intros E; inversion E. split; [auto|]. split; [left; reflexivity|]. split; intros X; [vm_compute in X|]; discriminate.
+    + destruct (key_dec k (str "u2/c1")) as [->|K2]; [|discriminate].
+      intros E; inversion E. split; [auto|]. split; [right; left; reflexivity|]. split; intros X; [vm_compute in X|]; discriminate.
+  - destruct (node_dec n ex_n2) as [->|N2]; [|discriminate].
+    cbn [recs al_get]. destruct (key_dec k (str "u5/c9")) as [->|K]; [|discriminate].
+    intros E; inversion E. split; [auto|]. split; [right; right; left; reflexivity|]. split; reflexivity.
+Qed.
+
+Lemma ex_good : good ex_st0 /\ once_files ex_st0 /\ collision_free id_hash ex_st0 /\
+                covers [ex_n3; ex_n1; ex_n2] ex_st0.
+Proof.
+  split; [split; [|split]|split; [|split]].
+  - intros n1 n2 p f1 f2 H1 H2. apply ex_file_cases in H1, H2.
+    destruct H1 as [(-> & -> & ->)|[(-> & -> & ->)|(-> & -> & ->)]];
+      destruct H2 as [(? & E & ->)|[(? & E & ->)|(? & E & ->)]]; try reflexivity; vm_compute in E; discriminate.
+  - intros n1 n2 k v1 v2 H1 H2. apply ex_rec_cases in H1, H2.
+    destruct H1 as (_ & I1 & _), H2 as (_ & I2 & _). cbn [In] in I1, I2.
+    repeat match goal with H : _ \/ _ |- _ => destruct H end; try contradiction;
+      repeat match goal with H : (_, _) = (_, _) |- _ => inversion H; clear H end; subst; try reflexivity;
+      match goal with H : str _ = str _ |- _ => vm_compute in H; discriminate end.
+  - intros n p f H. apply ex_file_cases in H.
+    destruct H as [(_ & _ & ->)|[(_ & _ & ->)|(_ & _ & ->)]]; discriminate.
+  - intros n1 n2 p H1 H2.
+    destruct (file ex_st0 n1 p) as [f1|] eqn:E1; [|congruence].
+    destruct (file ex_st0 n2 p) as [f2|] eqn:E2; [|congruence].
+    apply ex_file_cases in E1, E2.
+    destruct E1 as [(-> & -> & _)|[(-> & -> & _)|(-> & -> & _)]];
+      destruct E2 as [(-> & E & _)|[(-> & E & _)|(-> & E & _)]]; try reflexivity; vm_compute in E; discriminate.
+  - intros n p f H g Hg. unfold id_hash in Hg. congruence.
+  - intros n Hn. split.
+    + intros p. destruct (file ex_st0 n p) eqn:E; [|reflexivity]. apply ex_file_cases in E.
+      exfalso. apply Hn. cbn [In]. destruct E as [(-> & _)|[(-> & _)|(-> & _)]]; auto.
+    + intros k. destruct (rec_ ex_st0 n k) eqn:E; [|reflexivity]. apply ex_rec_cases in E.
+      exfalso. apply Hn. cbn [In]. destruct E as ([->| ->] & _); auto.
+Qed.
+
+(* ------------------------------------------------------------------ *)
+(* a colliding checksum + the pinned receiver lose a file                *)
+Lemma send_file_other {A H} (H_dec : forall a b : H, {a = b} + {a <> b}) (hash : list A -> H) h0 chunk
+      fixed fa src dst p (st : state A) n q :
+  (1 <= chunk)%nat -> n <> src -> n <> dst ->
+  file (fst (send_file H_dec hash h0 chunk fixed fa src dst p st)) n q = file st n q.
+Proof.
+  intros Hc Hs Hd.
+  destruct (send_file_cases H_dec hash h0 chunk (fun _ => []) (fun _ => []) Hc fixed fa src dst p st)
+    as [[_ E]|(f & _ & [E|[(c & E)|(c & E & _)]])]; rewrite E; cbn [fst]; try reflexivity.
+  - rewrite file_set_file. destruct (node_dec n dst); [contradiction|reflexivity].
+  - rewrite file_del_file. destruct (node_dec n src); [contradiction|].
+    rewrite file_set_file. destruct (node_dec n dst); [contradiction|reflexivity].
+Qed.
+
+Definition hash_c (l : list N) : unit := tt.
+Definition ex_c1 : state N := fst (send_file unit_dec hash_c tt 1 false (Some 1%nat) ex_a ex_b ex_p1 ex_stc).
+Definition ex_c2 : state N := fst (send_file unit_dec hash_c tt 1 false None ex_a ex_b ex_p1 ex_c1).
+
+Lemma ex_collision :
+  good ex_stc /\ file ex_stc ex_a ex_p1 = Some [1; 2]%N /\
+  reach unit_dec hash_c tt 1 (fun _ => ex_b) (fun _ => ex_b) false ex_stc ex_c2 /\
+  file ex_c1 ex_b ex_p1 = Some [1]%N /\
+  file ex_c2 ex_b ex_p1 = Some [1; 1; 2]%N /\ (forall n, file ex_c2 n ex_p1 <> Some [1; 2]%N).
+Proof.
+  assert (Hab : ex_a <> ex_b) by (intros E; vm_compute in E; discriminate).
+  assert (Cases : forall n p f, file ex_stc n p = Some f -> n = ex_a /\ p = ex_p1 /\ f = [1; 2]%N).
+  { intros n p f. unfold file, ex_stc. rewrite mk_state_get. cbn [al_get].
+    destruct (node_dec n ex_a) as [->|]; [|discriminate]. cbn [files al_get].
+    destruct (path_dec p ex_p1) as [->|]; [|discriminate]. intros E; inversion E; auto. }
+  split; [split; [|split]|].
+  - intros n1 n2 p f1 f2 H1 H2. apply Cases in H1, H2. destruct H1 as (_ & _ & ->), H2 as (_ & _ & ->). reflexivity.
+  - intros n1 n2 k v1 v2 H1. unfold rec_, ex_stc in H1. rewrite mk_state_get in H1. cbn [al_get] in H1.
+    destruct (node_dec n1 ex_a); cbn in H1; discriminate.
+  - intros n p f Hf. apply Cases in Hf. destruct Hf as (_ & _ & ->). discriminate.
+  - split; [vm_compute; reflexivity|]. split; [|split; [vm_compute; reflexivity|split; [vm_compute; reflexivity|]]].
+    + eapply Relation_Operators.rtn1_trans.
+      * exact (step_file unit_dec hash_c tt 1 (fun _ => ex_b) (fun _ => ex_b) false ex_c1 ex_a ex_p1 None Hab).
+      * eapply Relation_Operators.rtn1_trans; [|apply rtn1_refl].
+        exact (step_file unit_dec hash_c tt 1 (fun _ => ex_b) (fun _ => ex_b) false ex_stc ex_a ex_p1 (Some 1%nat) Hab).
+    + intros n. destruct (node_dec n ex_a) as [->|Na]; [vm_compute; discriminate|].
+      destruct (node_dec n ex_b) as [->|Nb]; [vm_compute; discriminate|].
+      unfold ex_c2, ex_c1. rewrite !send_file_other by (auto; lia).
+      intros Hx. apply Cases in Hx. destruct Hx as (Hx & _). contradiction.
+Qed.
